@@ -103,35 +103,6 @@ structure Problem where
   fixed : Option Fixed
   llScale : Rat
 
-/-- start / result expressions: vectors of numbers (`none`: the expression is not vector-valued in this sense) -/
-def evalV (expF logF : Rat → Rat) (pb : Problem) (xopt : List Rat) : VE → Option (List Rat)
-  | .p0 => some pb.p0
-  | .xopt => some xopt
-  | .log e => (evalV expF logF pb xopt e).map (·.map logF)
-  | .exp e => (evalV expF logF pb xopt e).map (·.map expF)
-  | .down e => (evalV expF logF pb xopt e).map (projectDownO · pb.fixed)
-  | .up e => (evalV expF logF pb xopt e).map (projectUpO · pb.fixed)
-  | _ => none
-
-/-- element type of a vector expression: `dp` = element type of the caller's `p0`, `da` = of the optimiser's answer; `numpy.log` /
-    `numpy.exp` produce floats, `down` keeps the type, `up` allocates -/
-def veDType (dp da : DType) : VE → DType
-  | .p0 => dp
-  | .xopt => da
-  | .down e => veDType dp da e
-  | .up e => upOutDtype (veDType dp da e)
-  | _ => .float
-
-/-- `evalV` with the element types (only `up` looks at them) -/
-def evalVT (dp da : DType) (expF logF : Rat → Rat) (pb : Problem) (xopt : List Rat) : VE → Option (List Rat)
-  | .p0 => some pb.p0
-  | .xopt => some xopt
-  | .log e => (evalVT dp da expF logF pb xopt e).map (·.map logF)
-  | .exp e => (evalVT dp da expF logF pb xopt e).map (·.map expF)
-  | .down e => (evalVT dp da expF logF pb xopt e).map (projectDownO · pb.fixed)
-  | .up e => (evalVT dp da expF logF pb xopt e).map (projectUpTO (veDType dp da e) · pb.fixed)
-  | _ => none
-
 /-- one entry of a bound list as the float code sees it: no bound (`None`, or the infinity of the natural direction: `-inf` for a
     lower, `+inf` for an upper bound), a number, `nan`, or the infinity of the WRONG direction (an empty box) -/
 inductive BV where
@@ -191,6 +162,63 @@ def evalB (expF logF : Rat → Rat) (pb : Problem) (isLower : Bool) : VE → Opt
 /-- bounds in the form `_object_func` tests them -/
 def evalBObj (expF logF : Rat → Rat) (pb : Problem) (isLower : Bool) (e : VE) : Option Bounds :=
   (evalB expF logF pb isLower e).map (·.map BV.toOpt)
+
+/-- `numpy.clip(x, lo, hi) = minimum(maximum(x, lo), hi)` on one entry; `none`: the result is not a finite number (a `nan` bound
+    propagates, the infinity of the wrong direction gives ±inf) -/
+def clipEntry (x : Rat) (lo hi : BV) : Option Rat :=
+  let y : Option Rat := match lo with
+    | .absent => some x
+    | .val l => some (ratMax x l)
+    | _ => none
+  y.bind fun y => match hi with
+    | .absent => some y
+    | .val u => some (ratMin y u)
+    | _ => none
+
+/-- a bound list as `numpy.clip` broadcasts it against a vector of length `n`: `None` = no bound on any entry; a list of another
+    length does not broadcast (ValueError; here: no result) -/
+def clipSide (n : Nat) : Option (List BV) → Option (List BV)
+  | none => some (List.replicate n BV.absent)
+  | some l => if l.length = n then some l else none
+
+/-- `numpy.clip(v, lo, hi)`; `none`: some entry is not a finite number, or the shapes do not agree -/
+def clipVec (v : List Rat) (lo hi : Option (List BV)) : Option (List Rat) :=
+  match clipSide v.length lo, clipSide v.length hi with
+  | some l, some u => (List.zipWith (fun (x : Rat) (b : BV × BV) => clipEntry x b.1 b.2) v (l.zip u)).mapM id
+  | _, _ => none
+
+/-- start / result expressions: vectors of numbers (`none`: the expression is not vector-valued in this sense) -/
+def evalV (expF logF : Rat → Rat) (pb : Problem) (xopt : List Rat) : VE → Option (List Rat)
+  | .p0 => some pb.p0
+  | .xopt => some xopt
+  | .log e => (evalV expF logF pb xopt e).map (·.map logF)
+  | .exp e => (evalV expF logF pb xopt e).map (·.map expF)
+  | .down e => (evalV expF logF pb xopt e).map (projectDownO · pb.fixed)
+  | .up e => (evalV expF logF pb xopt e).map (projectUpO · pb.fixed)
+  | .clip e lo hi => (evalV expF logF pb xopt e).bind fun v =>
+      clipVec v (evalB expF logF pb true lo) (evalB expF logF pb false hi)
+  | _ => none
+
+/-- element type of a vector expression: `dp` = element type of the caller's `p0`, `da` = of the optimiser's answer; `numpy.log` /
+    `numpy.exp` produce floats, `down` keeps the type, `up` allocates -/
+def veDType (dp da : DType) : VE → DType
+  | .p0 => dp
+  | .xopt => da
+  | .down e => veDType dp da e
+  | .up e => upOutDtype (veDType dp da e)
+  | _ => .float          -- `numpy.log`, `numpy.exp`, `numpy.clip` against float bounds: float arrays
+
+/-- `evalV` with the element types (only `up` looks at them) -/
+def evalVT (dp da : DType) (expF logF : Rat → Rat) (pb : Problem) (xopt : List Rat) : VE → Option (List Rat)
+  | .p0 => some pb.p0
+  | .xopt => some xopt
+  | .log e => (evalVT dp da expF logF pb xopt e).map (·.map logF)
+  | .exp e => (evalVT dp da expF logF pb xopt e).map (·.map expF)
+  | .down e => (evalVT dp da expF logF pb xopt e).map (projectDownO · pb.fixed)
+  | .up e => (evalVT dp da expF logF pb xopt e).map (projectUpTO (veDType dp da e) · pb.fixed)
+  | .clip e lo hi => (evalVT dp da expF logF pb xopt e).bind fun v =>
+      clipVec v (evalB expF logF pb true lo) (evalB expF logF pb false hi)
+  | _ => none
 
 /-- the function the optimiser is given, as a function of its query vector -/
 def wrapperObjective (w : Wrapper) (expF logF : Rat → Rat) (pb : Problem) (m : ModelFn) (x : List Rat) :
@@ -374,5 +402,57 @@ def optAt (bs : Option Bounds) (i : Nat) : Option Rat :=
 /-- `perturb_params(params, fold, lower_bound, upper_bound)` with the random factors `2**(fold*(2u-1))` given -/
 def perturb (params factors : List Rat) (lower upper : Option Bounds) : List Rat :=
   (List.zipWith (· * ·) params factors).zipIdx.map fun (p, i) => perturbEntry perturbSteps p (optAt lower i) (optAt upper i)
+
+/-- the draw `pnew = params * 2**(<generated exponent in fold and the uniform variate u>)`, then the clamps: `pow2` stands for `2**·`
+    (the driver gets the table of the floats numpy computes; the theorems hold for EVERY function) -/
+def perturbFold (pow2 : Rat → Rat) (params : List Rat) (fold : Rat) (us : List Rat) (lower upper : Option Bounds) : List Rat :=
+  perturb params (us.map fun u => pow2 (perturbExponent fold u)) lower upper
+
+/-! ## grid search: `scipy.optimize.brute(…, finish=False)` is a finite enumeration, so it is MODELLED, not a parameter -/
+
+/-- number of points of `a:b:s` — `ceil((b - a)/s)`, as `numpy.mgrid` / `numpy.arange` compute it (none for a step that is not positive) -/
+def stepCount (a b s : Rat) : Nat := if 0 < s then ((b - a) / s).ceil.toNat else 0
+
+/-- the values `numpy.mgrid` produces along one axis: `a:b:mj` ↦ `a + i*(b-a)/(m-1)`, i < m (`m = 1`: the step stays 1, the single value is
+    `a`); `a:b:s` ↦ `a + i*s`, i < ceil((b-a)/s) -/
+def GridSlice.axis : GridSlice → List Rat
+  | .count a b m => (List.range m).map fun (i : Nat) => a + (i : Rat) * (if m = 1 then 1 else (b - a) / ((m : Rat) - 1))
+  | .step a b s _ => (List.range (stepCount a b s)).map fun (i : Nat) => a + (i : Rat) * s
+
+/-- the points in the order `brute` evaluates them: `mgrid` reshaped to (N, prod).T, i.e. C order — the LAST axis varies fastest -/
+def gridProduct : List (List Rat) → List (List Rat)
+  | [] => [[]]
+  | ax :: rest => ax.flatMap fun x => (gridProduct rest).map (x :: ·)
+
+/-- element type of the arrays `brute` hands to the objective: integer exactly when every axis is written `a:b:s` with integers only -/
+def gridDType (sl : List GridSlice) : DType :=
+  if sl.all (fun | .step _ _ _ true => true | _ => false) then .int else .float
+
+/-- `numpy.argmin(Jout.ravel())`: the FIRST entry with the smallest value (a later entry wins only when strictly smaller) -/
+def argminFirst : History → Option (List Rat × Rat)
+  | [] => none
+  | q :: rest =>
+    match argminFirst rest with
+    | none => some q
+    | some r => if r.2 < q.2 then some r else some q
+
+/-- `scipy.optimize.brute(func, ranges=grid, finish=False)` as a strategy: query every grid point in order, then answer with the first
+    minimum (an empty grid is a ValueError of `argmin` in the real code; the driver refuses it, the theorems assume a point) -/
+def bruteOpt (pts : List (List Rat)) : Opt := fun _ _ _ h =>
+  match pts.drop h.length with
+  | q :: _ => .query q
+  | [] => match argminFirst h with
+    | some xf => .stop xf.1 xf.2
+    | none => .stop [] 0
+
+def gridPoints (sl : List GridSlice) : List (List Rat) := gridProduct (sl.map GridSlice.axis)
+
+/-- one call of `optimize_grid`: the generated wrapper row around the enumeration -/
+def runGrid (w : Wrapper) (expF logF : Rat → Rat) (pb : Problem) (m : ModelFn) (sl : List GridSlice) : WrapperRun :=
+  runWrapper w expF logF pb m (bruteOpt (gridPoints sl)) (gridPoints sl).length
+
+/-- … with the element types: integer queries for a grid written with integers; `brute` answers with a float array (`xmin = empty(N, float)`) -/
+def runGridT (w : Wrapper) (expF logF : Rat → Rat) (pb : Problem) (m : ModelFn) (sl : List GridSlice) : WrapperRun :=
+  runWrapperT .float (gridDType sl) .float w expF logF pb m (bruteOpt (gridPoints sl)) (gridPoints sl).length
 
 end DadiVerif.Optim
